@@ -106,7 +106,15 @@ pub trait Backend: 'static {
     fn create(cap: usize, readers: usize) -> (Self::Writer, Vec<Client<Self::Reader>>);
     fn add(w: &Self::Writer, spec: &ChanSpec) -> Result<LocalChannelId, <Self::Writer as AranyaState>::Error>;
     fn is_out_of_space(e: &<Self::Writer as AranyaState>::Error) -> bool;
+    /// One more reader-side handle onto the state made by the last `create`.
+    fn reopen() -> Self::Reader;
     fn destroy() {}
+}
+
+thread_local! {
+    /// all loom threads of a process run on one OS thread
+    static LAST_MEM: core::cell::RefCell<Option<memory::State<CS>>> = const { core::cell::RefCell::new(None) };
+    static LAST_CAP: Cell<usize> = const { Cell::new(0) };
 }
 
 pub struct Shm;
@@ -124,6 +132,7 @@ impl Backend for Shm {
 
     fn create(cap: usize, readers: usize) -> (Self::Writer, Vec<Client<Self::Reader>>) {
         let path = shm_path();
+        LAST_CAP.with(|c| c.set(cap));
         let _ = shm::unlink(&*path);
         let w = WriteState::open(&*path, Flag::Create, Mode::ReadWrite, cap, DetRng::new(7)).expect("create shm state");
         let rs = (0..readers)
@@ -144,6 +153,11 @@ impl Backend for Shm {
         matches!(e, shm::Error::OutOfSpace)
     }
 
+    fn reopen() -> Self::Reader {
+        let cap = LAST_CAP.with(|c| c.get());
+        ReadState::open(&*shm_path(), Flag::OpenOnly, Mode::ReadWrite, cap).expect("open shm state")
+    }
+
     fn destroy() {
         let _ = shm::unlink(&*shm_path());
     }
@@ -157,7 +171,16 @@ impl Backend for Mem {
     fn create(_cap: usize, readers: usize) -> (Self::Writer, Vec<Client<Self::Reader>>) {
         let s = memory::State::<CS>::new();
         let rs = (0..readers).map(|_| Client::new(s.clone())).collect();
+        LAST_MEM.with(|m| *m.borrow_mut() = Some(s.clone()));
         (s, rs)
+    }
+
+    fn reopen() -> Self::Reader {
+        LAST_MEM.with(|m| m.borrow().clone()).expect("create was called")
+    }
+
+    fn destroy() {
+        LAST_MEM.with(|m| *m.borrow_mut() = None);
     }
 
     fn add(w: &Self::Writer, spec: &ChanSpec) -> Result<LocalChannelId, Error> {
